@@ -210,11 +210,10 @@ theorem continue_idle (s : St) (f : FlagId) (hf4 : s.cfg.f4 = true) (hn : NotRun
 /-- **C09 (refinement, one control)** — with the repairs in place, handling a control changes the
     observable state, acts on processes and resolves (or defers) its ticket exactly as documented. -/
 theorem handle_refines (s : St) (m : Msg) (hall : s.cfg = Fixes.all)
-    (hch : ∀ c, s.cs = .running c → ∃ ch, s.child? c = some ch)
-    (hfresh : s.isRaised m.done = false) :
+    (hch : ∀ c, s.cs = .running c → ∃ ch, s.child? c = some ch) :
     (handle s m).abs = (specStep s.abs m.ctl).1 ∧
     (handle s m).fx = (specStep s.abs m.ctl).2.1.reverse ++ s.fx ∧
-    (handle s m).isRaised m.done = (specStep s.abs m.ctl).2.2 := by
+    (s.isRaised m.done = false → (handle s m).isRaised m.done = (specStep s.abs m.ctl).2.2) := by
   have hf4 : s.cfg.f4 = true := by rw [hall]; rfl
   have hf6 : s.cfg.f6 = true := by rw [hall]; rfl
   have habs_cs : s.abs.cs = s.cs := rfl
@@ -224,57 +223,57 @@ theorem handle_refines (s : St) (m : Msg) (hall : s.cfg = Fixes.all)
     cases hcs : s.cs with
     | running c =>
       simp only [handle, specStep, habs_cs, hcs]
-      exact ⟨raise_abs _ _, by simp, by rw [raise_raised]; simp⟩
+      exact ⟨raise_abs _ _, by simp, fun _ => by rw [raise_raised]; simp⟩
     | pending =>
       have hn : NotRunning s := fun c h => by rw [hcs] at h; cases h
       obtain ⟨h1, h2, h3⟩ := reset_abs s hn
       have := spawn_tail s.reset h3 f
       simp only [handle, specStep, habs_cs, hcs, Sp.respawn]
-      rw [h1, h2] at this; exact this
+      rw [h1, h2] at this; exact ⟨this.1, this.2.1, fun _ => this.2.2⟩
     | finished st =>
       have hn : NotRunning s := fun c h => by rw [hcs] at h; cases h
       obtain ⟨h1, h2, h3⟩ := reset_abs s hn
       have := spawn_tail s.reset h3 f
       simp only [handle, specStep, habs_cs, hcs, Sp.respawn]
-      rw [h1, h2] at this; exact this
+      rw [h1, h2] at this; exact ⟨this.1, this.2.1, fun _ => this.2.2⟩
   | stop =>
     cases hcs : s.cs with
     | running c =>
       obtain ⟨ch, hch'⟩ := hch c hcs
       obtain ⟨k1, k2⟩ := killReap_absfx s c ch hch'
       simp only [handle, specStep, habs_cs, hcs]
-      refine ⟨by rw [raise_abs, endFlags_abs, k1], by rw [raise_fx, endFlags_fx, k2]; simp, by rw [raise_raised]; simp⟩
+      refine ⟨by rw [raise_abs, endFlags_abs, k1], by rw [raise_fx, endFlags_fx, k2]; simp, fun _ => by rw [raise_raised]; simp⟩
     | pending =>
       simp only [handle, specStep, habs_cs, hcs]
-      exact ⟨raise_abs _ _, by simp, by rw [raise_raised]; simp⟩
+      exact ⟨raise_abs _ _, by simp, fun _ => by rw [raise_raised]; simp⟩
     | finished st =>
       simp only [handle, specStep, habs_cs, hcs]
-      exact ⟨raise_abs _ _, by simp, by rw [raise_raised]; simp⟩
+      exact ⟨raise_abs _ _, by simp, fun _ => by rw [raise_raised]; simp⟩
   | signal sig =>
     cases hcs : s.cs with
     | running c =>
       simp only [handle, specStep, habs_cs, hcs]
-      exact ⟨by rw [raise_abs, signalChild_abs], by rw [raise_fx, signalChild_fx]; simp, by rw [raise_raised]; simp⟩
+      exact ⟨by rw [raise_abs, signalChild_abs], by rw [raise_fx, signalChild_fx]; simp, fun _ => by rw [raise_raised]; simp⟩
     | pending =>
       simp only [handle, specStep, habs_cs, hcs]
-      exact ⟨raise_abs _ _, by simp, by rw [raise_raised]; simp⟩
+      exact ⟨raise_abs _ _, by simp, fun _ => by rw [raise_raised]; simp⟩
     | finished st =>
       simp only [handle, specStep, habs_cs, hcs]
-      exact ⟨raise_abs _ _, by simp, by rw [raise_raised]; simp⟩
+      exact ⟨raise_abs _ _, by simp, fun _ => by rw [raise_raised]; simp⟩
   | nextEnding =>
     cases hcs : s.cs with
     | running c =>
       simp only [handle, specStep, habs_cs, hcs]
-      exact ⟨by simp [St.abs, hcs], by simp [St.fx], by simpa [St.isRaised] using hfresh⟩
+      exact ⟨by simp [St.abs, hcs], by simp [St.fx], fun hfresh => by simpa [St.isRaised] using hfresh⟩
     | pending =>
       simp only [handle, specStep, habs_cs, hcs, hf6, if_true]
-      exact ⟨raise_abs _ _, by simp, by rw [raise_raised]; simp⟩
+      exact ⟨raise_abs _ _, by simp, fun _ => by rw [raise_raised]; simp⟩
     | finished st =>
       simp only [handle, specStep, habs_cs, hcs]
-      exact ⟨raise_abs _ _, by simp, by rw [raise_raised]; simp⟩
+      exact ⟨raise_abs _ _, by simp, fun _ => by rw [raise_raised]; simp⟩
   | func id =>
     simp only [handle, specStep]
-    exact ⟨by rw [raise_abs]; rfl, by rw [raise_fx, fx_emit _ _ rfl]; rfl, by rw [raise_raised]; simp⟩
+    exact ⟨by rw [raise_abs]; rfl, by rw [raise_fx, fx_emit _ _ rfl]; rfl, fun _ => by rw [raise_raised]; simp⟩
   | delete =>
     simp only [handle, specStep]
     refine ⟨?_, ?_, ?_⟩
@@ -282,13 +281,14 @@ theorem handle_refines (s : St) (m : Msg) (hall : s.cfg = Fixes.all)
     · rw [raise_fx, fx_emit _ _ rfl]
       show Obs.ended :: (s.raise f).fx = _
       simp
-    · rw [raise_raised]
+    · intro _
+      rw [raise_raised]
       show ((s.raise f).isRaised f || f == 0) = true
       rw [raise_raised]; simp
-  | setHook => simp only [handle, specStep]; exact ⟨by rw [raise_abs]; rfl, by rw [raise_fx]; rfl, by rw [raise_raised]; simp⟩
-  | unsetHook => simp only [handle, specStep]; exact ⟨by rw [raise_abs]; rfl, by rw [raise_fx]; rfl, by rw [raise_raised]; simp⟩
-  | setErr => simp only [handle, specStep]; exact ⟨by rw [raise_abs]; rfl, by rw [raise_fx]; rfl, by rw [raise_raised]; simp⟩
-  | unsetErr => simp only [handle, specStep]; exact ⟨by rw [raise_abs]; rfl, by rw [raise_fx]; rfl, by rw [raise_raised]; simp⟩
+  | setHook => simp only [handle, specStep]; exact ⟨by rw [raise_abs]; rfl, by rw [raise_fx]; rfl, fun _ => by rw [raise_raised]; simp⟩
+  | unsetHook => simp only [handle, specStep]; exact ⟨by rw [raise_abs]; rfl, by rw [raise_fx]; rfl, fun _ => by rw [raise_raised]; simp⟩
+  | setErr => simp only [handle, specStep]; exact ⟨by rw [raise_abs]; rfl, by rw [raise_fx]; rfl, fun _ => by rw [raise_raised]; simp⟩
+  | unsetErr => simp only [handle, specStep]; exact ⟨by rw [raise_abs]; rfl, by rw [raise_fx]; rfl, fun _ => by rw [raise_raised]; simp⟩
   | gracefulStop sig grace =>
     cases hcs : s.cs with
     | running c =>
@@ -296,14 +296,15 @@ theorem handle_refines (s : St) (m : Msg) (hall : s.cfg = Fixes.all)
       simp only [specStep, habs_cs, hcs]
       refine ⟨signalChild_abs s c sig, ?_, ?_⟩
       · show (s.signalChild c sig).fx = _; rw [signalChild_fx]; simp
-      · show (s.signalChild c sig).isRaised f = false
+      · intro hfresh
+        show (s.signalChild c sig).isRaised f = false
         rw [isRaised_of_raised (quiet_signalChild s c sig).2]; exact hfresh
     | pending =>
       simp only [handle, specStep, habs_cs, hcs]
-      exact ⟨raise_abs _ _, by simp, by rw [raise_raised]; simp⟩
+      exact ⟨raise_abs _ _, by simp, fun _ => by rw [raise_raised]; simp⟩
     | finished st =>
       simp only [handle, specStep, habs_cs, hcs]
-      exact ⟨raise_abs _ _, by simp, by rw [raise_raised]; simp⟩
+      exact ⟨raise_abs _ _, by simp, fun _ => by rw [raise_raised]; simp⟩
   | tryGracefulRestart sig grace =>
     cases hcs : s.cs with
     | running c =>
@@ -311,14 +312,15 @@ theorem handle_refines (s : St) (m : Msg) (hall : s.cfg = Fixes.all)
       simp only [specStep, habs_cs, hcs]
       refine ⟨signalChild_abs s c sig, ?_, ?_⟩
       · show (s.signalChild c sig).fx = _; rw [signalChild_fx]; simp
-      · show (s.signalChild c sig).isRaised f = false
+      · intro hfresh
+        show (s.signalChild c sig).isRaised f = false
         rw [isRaised_of_raised (quiet_signalChild s c sig).2]; exact hfresh
     | pending =>
       simp only [handle, specStep, habs_cs, hcs]
-      exact ⟨raise_abs _ _, by simp, by rw [raise_raised]; simp⟩
+      exact ⟨raise_abs _ _, by simp, fun _ => by rw [raise_raised]; simp⟩
     | finished st =>
       simp only [handle, specStep, habs_cs, hcs]
-      exact ⟨raise_abs _ _, by simp, by rw [raise_raised]; simp⟩
+      exact ⟨raise_abs _ _, by simp, fun _ => by rw [raise_raised]; simp⟩
   | tryRestart =>
     cases hcs : s.cs with
     | running c =>
@@ -331,14 +333,14 @@ theorem handle_refines (s : St) (m : Msg) (hall : s.cfg = Fixes.all)
       have := spawn_tail (s.killReap c).reset.endFlags hn2 f
       rw [endFlags_abs, endFlags_fx, r1, r2, k1, k2] at this
       simp only [handle, specStep, habs_cs, hcs, Sp.respawn]
-      refine ⟨this.1, ?_, this.2.2⟩
+      refine ⟨this.1, ?_, fun _ => this.2.2⟩
       rw [this.2.1]; simp
     | pending =>
       simp only [handle, specStep, habs_cs, hcs]
-      exact ⟨raise_abs _ _, by simp, by rw [raise_raised]; simp⟩
+      exact ⟨raise_abs _ _, by simp, fun _ => by rw [raise_raised]; simp⟩
     | finished st =>
       simp only [handle, specStep, habs_cs, hcs]
-      exact ⟨raise_abs _ _, by simp, by rw [raise_raised]; simp⟩
+      exact ⟨raise_abs _ _, by simp, fun _ => by rw [raise_raised]; simp⟩
   | continueTGR =>
     have clear : ∀ x : St, x.cfg = s.cfg → (if x.cfg.f4 = true then { x with onEndRestart := none } else x) = { x with onEndRestart := none } := by
       intro x hx; rw [hx, hf4]; rfl
@@ -360,7 +362,7 @@ theorem handle_refines (s : St) (m : Msg) (hall : s.cfg = Fixes.all)
       rw [e1, e2] at this
       simp only [handle, specStep, habs_cs, hcs, Sp.respawn]
       rw [clear _ (by simp)]
-      refine ⟨this.1, ?_, this.2.2⟩
+      refine ⟨this.1, ?_, fun _ => this.2.2⟩
       rw [this.2.1]; simp
     | pending =>
       have hn' : NotRunning s := fun c' h => by rw [hcs] at h; cases h
@@ -373,7 +375,7 @@ theorem handle_refines (s : St) (m : Msg) (hall : s.cfg = Fixes.all)
       have := spawn_tail _ r3 f
       rw [r1, r2, hxa, hxf] at this
       simp only [specStep, habs_cs, hcs, Sp.respawn]
-      exact this
+      exact ⟨this.1, this.2.1, fun _ => this.2.2⟩
     | finished st =>
       have hn' : NotRunning s := fun c' h => by rw [hcs] at h; cases h
       rw [continue_idle s f hf4 hn']
@@ -385,6 +387,6 @@ theorem handle_refines (s : St) (m : Msg) (hall : s.cfg = Fixes.all)
       have := spawn_tail _ r3 f
       rw [r1, r2, hxa, hxf] at this
       simp only [specStep, habs_cs, hcs, Sp.respawn]
-      exact this
+      exact ⟨this.1, this.2.1, fun _ => this.2.2⟩
 
 end Jm
